@@ -309,6 +309,13 @@ impl<T: AsRef<[u8]> + AsMut<[u8]>> NdiscOption<T> {
 
 /// Setter methods only relevant for the MTU option.
 impl<T: AsRef<[u8]> + AsMut<[u8]>> NdiscOption<T> {
+    /// Clear the reserved bits.
+    #[inline]
+    pub fn clear_mtu_reserved(&mut self) {
+        let data = self.buffer.as_mut();
+        data[field::LENGTH + 1..field::MTU.start].fill(0);
+    }
+
     /// Set the MTU value.
     #[inline]
     pub fn set_mtu(&mut self, value: u32) {
@@ -576,6 +583,7 @@ impl<'a> Repr<'a> {
                 ip_packet.payload_mut().copy_from_slice(data);
             }
             Repr::Mtu(mtu) => {
+                opt.clear_mtu_reserved();
                 opt.set_option_type(Type::Mtu);
                 opt.set_data_len(1);
                 opt.set_mtu(mtu);
